@@ -32,7 +32,9 @@ P = 'PydlVerif.C01.'
 THEOREMS = [P + t for t in (
     'int_roundtrip', 'getToken_protect', 'getToken_protect_last', 'trailingComment_row',
     'doubleBraces_row', 'parseRow_fmtRow', 'getToken_rowLine', 'unsupported_refused',
-    'unsupported_not_rendered', 'lineStep_row', 'lineStep_pair', 'parse_render_partial')]
+    'unsupported_not_rendered', 'lineStep_row', 'lineStep_pair', 'parse_render_partial',
+    'front_render', 'typing_render', 'loop_render', 'finish_render', 'parse_render', 'parse_render_bind',
+    'docOK_select')]
 RULE = ('documents: 0-4 tables x 0-6 rows x 1-8 columns of i2/i4/i8/f4/f8/S<n>/U<n>, 1-D arrays of those, enum '
         'columns; cells biased to empty/blank/tab/#/;/brace/backslash/control characters, extreme integers, '
         'special and random-bit floats; header dictionaries; comment modes; record-array and astropy-Table entry '
@@ -43,8 +45,8 @@ TRUSTED = ['hand-written model lean/PydlVerif/Model/Yanny{Tok,Row,File,Dom}.lean
            'astropy Table <-> record array conversion, the io registry, file-system text encoding',
            'Python re: the scanners of the model are hand-written equivalents of the regular expressions']
 ASSUMPTIONS = [
-    'struct, column and enum-type names are ASCII identifiers; table names are distinct ignoring case; no table name occurs '
-    '(ignoring case) inside another struct definition (D16/D17, handled under C02)',
+    'struct, column and enum-type names are ASCII identifiers; table names are distinct ignoring case (they may contain one '
+    'another and equal column, enum-type or C type names: the D16/D17 patterns are generated since the fix be380b6)',
     'header values are compared in their text form after str.strip(); a header line, like a data line, must not end in a backslash '
     '(the format\'s continuation mark)',
     'cells are ASCII without NUL, newline and carriage return (open(...) reads with universal newlines)',
@@ -52,15 +54,19 @@ ASSUMPTIONS = [
     'NaN is compared as NaN (payload and sign of a NaN are not carried by the text "nan")',
     'known finding (D4): a line containing a {ws{ws}ws} pattern or a text matching the typedef regular expression is rewritten by the reader',
 ]
-LEVEL_TEXT = ('Lean 4 theorems over an executable model of the yanny writer and reader: integer text round trip, token '
-              'round trip get_token(protect s), stability of a written row under trailing-comment stripping and the double-brace '
-              'substitution, row round trip parseRow(fmtRow r) = r for every schema and every in-domain row (floats by hypothesis '
-              'h1/h2), refusal of unsupported scalar types, and the line-loop step for data and header lines (lineStep_row, lineStep_pair). The model is tied '
-              'to the code on every run by semantic correspondence in both directions (pydl text -> model reader, model text -> pydl '
+LEVEL_TEXT = ('Lean 4 theorems over an executable model of the yanny writer and reader: the whole-file round trip parse_render '
+              '(docOK d -> parseFile (renderFile d) = canon d: several tables, zero-row tables, header pairs, enums, comment block; '
+              'floats by hypothesis h1/h2) with its four pieces front_render (continuation joining, typedef extraction, symbol table), '
+              'typing_render (type/basetype/isarray/array_length/char_length/isenum on the written typedef text), loop_render (the line '
+              'loop over the whole rest text) and finish_render (record arrays); below it the integer and token round trips, stability of '
+              'a written row under trailing-comment stripping and the double-brace substitution, the row round trip, the line-loop steps '
+              '(lineStep_row, lineStep_pair, parse_render_partial from any state) and the refusal of unsupported scalar types. The model is '
+              'tied to the code on every run by semantic correspondence in both directions (pydl text -> model reader, model text -> pydl '
               'reader), token-level differential testing and an independent cell-by-cell oracle.')
-LEVEL_NOTE = ('Partial: the whole-file theorem parse_render is stated in full in Props/C01.lean and proved as parse_render_partial for the '
-              'data section given the symbol table (typedef extraction and typing from the typedef text are modelled and compared, '
-              'not proved). Floats by hypothesis (h1, h2), sampled. Known finding D4 (line-wide {{}} rewriting, typedef text in cells).')
+LEVEL_NOTE = ('The file theorem is about the model (hand-written scanners for the regular expressions, tied by correspondence) and holds on '
+              'the decidable domain docOK; its conjunct selectOK is proved redundant (docOK_select), its conjuncts dbFree / noTypedef per line '
+              'are the D4 exclusion (known finding: line-wide {{}} rewriting, typedef text in cells). Floats by hypothesis (h1, h2), sampled. '
+              'The astropy-Table entry points are compared, not modelled.')
 
 SUPPORTED = ['i2', 'i4', 'i8', 'f4', 'f8']
 UNSUPPORTED = ['u2', 'u4', 'u8', 'i1', 'u1', 'b1', 'f2', 'c8', 'c16']
@@ -281,22 +287,27 @@ def gen_doc(rng, ntab=None, table_entry=False, zero_array=True):
     tables = []
     tnames = []
     for ti in range(ntab):
-        # the table name first; later names (columns, tables) must not contain it, ignoring case (D16/D17 are C02's)
-        words = set(KEYWORDS) | {e[1] for e in enums} | {c[0] for t in tables for c in t['cols']}
-
+        # table names are distinct ignoring case - nothing else: they may contain one another, equal a column name, an enum
+        # type name or a C type word (the D16/D17 clash patterns; type() selects by the trailing '} NAME;' since be380b6)
         def tn_ok(tn):
-            low = tn.lower()
-            return not any(low in w.lower() for w in words) and not any(low in o.lower() or o.lower() in low for o in tnames)
-        tn = gen_ident(rng, set(), maxlen=8, pool=['mystruct', 'T0', 'Tab', 'OBS'], ok=tn_ok)
-        if rng.random() < 0.15 and tn_ok('9' + tn):
-            tn = rng.choice('0123456789') + tn
-        earlier = [o.lower() for o in tnames]
+            return tn.upper() not in {o.upper() for o in tnames}
+        clash = []
+        for o in tnames:
+            clash += [o + 'x', 'a' + o, o + o, o[:max(1, len(o) - 1)], o[1:] or 'b']
+        clash += [c[0] for t in tables for c in t['cols']] + [e[1] for e in enums] + [e[0] for e in enums] + ['int', 'char', 'struct']
+        clash = [c for c in clash if re.fullmatch(r'[A-Za-z_][A-Za-z0-9_]*', c)]
+        tn = gen_ident(rng, set(), maxlen=8, pool=['mystruct', 'T0', 'Tab', 'OBS'] + clash + clash, ok=tn_ok)
+        if rng.random() < 0.15:
+            dg = rng.choice('0123456789')
+            if tn_ok(dg + tn):
+                tn = dg + tn
         ncol = rng.choice([1, 1, 2, 3, 4, 5, 6, 7, 8])
         cols, used = [], set()
         for ci in range(ncol):
             pool = ['a', 'aa', 'ba', 'A', 'x', 'int', 'char', 'v', 'name'] + list(enum_cols)
-            name = gen_ident(rng, used, pool=pool, ok=lambda w: not any(o in w.lower() for o in earlier) and
-                             (tn.lower() not in w.lower() or w.lower() == tn.lower()))
+            pool += [w for w in [tn, tn.lower(), tn.upper(), tn + 'a', 'x' + tn] + tnames + [o.lower() for o in tnames]
+                     if re.fullmatch(r'[A-Za-z_][A-Za-z0-9_]*', w)]
+            name = gen_ident(rng, used, pool=pool)
             used.add(name)
             k = rng.randrange(10)
             if name in enum_cols or k < 3:
@@ -1099,6 +1110,19 @@ def _ensure_driver():
         core.lake_build(['pydl_driver'])
 
 
+def _name_clash(d):
+    """the D16/D17 patterns: a table name inside another table's name, or equal to a column / enum-type / C type name"""
+    tn = [t['name'].lower() for t in d['tables']]
+    if any(a != b and a in b for a in tn for b in tn):
+        return 'D16-table-in-table'
+    words = {c[0].lower() for t in d['tables'] for c in t['cols']} | {e[1].lower() for e in d['enums']} | set(KEYWORDS)
+    if any(a in words for a in tn):
+        return 'D17-table-is-word'
+    if any(a in w for a in tn for w in words):
+        return 'table-in-word'
+    return None
+
+
 def run(ctx):
     core.audit(ctx, LEAN_MODULES, THEOREMS)
     _ensure_driver()
@@ -1109,6 +1133,9 @@ def run(ctx):
         d = gen_doc(rng, table_entry=(rng.random() < 0.15))
         if in_domain(d):
             docs.append(d)
+            kind = _name_clash(d)
+            if kind:
+                ctx.count('doc:name-clash:' + kind)
         else:
             ctx.count('doc:generated-outside-domain')
     # directed: zero-row tables with array columns (D3), every column kind once
